@@ -881,3 +881,33 @@ Proof.
   destruct Hi' as [Hoff' _]. unfold buf_len, buf_unread, buf_cap in *. rewrite Hb in *. rewrite Hsp, Ho in *.
   repeat split; lia.
 Qed.
+
+(* ================= ReadOnce: the second entry point into Write ============ *)
+
+Lemma buf_read_once_is_write s d :
+  buf_read_once s (Some d) =
+  match buf_step s (BWrite d) with
+  | Ok (s', BRWrote n) => Ok (s', Some n)
+  | Ok (s', _) => Ok (s', None)
+  | Err e => Err e
+  | Panic => Panic
+  end.
+Proof.
+  unfold buf_read_once. cbn [buf_step]. destruct (buf_write s d) as [[s1 n]|e|]; reflexivity.
+Qed.
+
+Lemma buf_read_once_spec s rd s' r :
+  buf_inv s -> 2 * buf_cap s + Z.of_nat (length (match rd with Some d => d | None => [] end)) <= buf_maxint ->
+  buf_read_once s rd = Ok (s', r) ->
+  match rd with
+  | None => s' = s /\ r = None                      (* the reader failed: nothing changes *)
+  | Some d => r = Some (Z.of_nat (length d)) /\ buf_unread s' = buf_unread s ++ d
+  end.
+Proof.
+  intros Hi Hmax H. destruct rd as [d|].
+  - rewrite buf_read_once_is_write in H.
+    destruct (buf_step s (BWrite d)) as [[s1 r1]|e|] eqn:E; [|discriminate|discriminate].
+    destruct (buf_write_appends_unread s d s1 r1 Hi Hmax E) as (Hr & Hu & _). subst r1.
+    inversion H; subst. split; [reflexivity|exact Hu].
+  - cbn in H. inversion H. split; reflexivity.
+Qed.
